@@ -118,6 +118,23 @@ def layout_cases():
     return out
 
 
+def set_cases():
+    """sets of the hashable kinds the random generator does not put into sets: dill-fallback values (stored as arrays),
+    NumPy scalars, objects / tensors / modules / loggers / generators (hashable by identity) — the sub-group and
+    array branches of the set restoration loop"""
+    import logging
+    import numpy as np
+    import torch
+    from . import ser_classes as A
+    out = []
+    out.append(("sets-fallback", lambda: _mk(A.SA, s={1j, b"ab", frozenset({1, 2}), "a"}, t=[{2.5 - 1j, "z"}, "x"])))
+    out.append(("sets-npnumeric", lambda: _mk(A.SA, s={np.float32(0.5), np.int16(-3), 7}, d={"k": {"u", None, 2 ** 40}})))
+    out.append(("sets-objects", lambda: _mk(A.SA, s={_mk(A.SB, i=1, a=np.arange(3)), _mk(A.SC, i=2)}, l=[{_mk(A.SA, n=None)}])))
+    out.append(("sets-torch", lambda: _mk(A.SA, s={torch.arange(3.0), "m"}, t={torch.nn.Linear(2, 1), 5})))
+    out.append(("sets-rng-logger", lambda: _mk(A.SA, s={np.random.default_rng(1), logging.getLogger("qv.a"), "r"}, t={("k", 1), pathlib.Path("p/q")})))
+    return out
+
+
 def _class_sig(x, path="$"):
     """(path, module, qualname) of every AutoSerialize object in the graph, in a canonical order"""
     from quantem.core.io.serialize import AutoSerialize
@@ -396,7 +413,7 @@ def fixed_stream(ctx, drv, only=None):
     torch.set_num_threads(1)
     base = _scratch("")
     try:
-        for name, make in wide_cases() + layout_cases():
+        for name, make in wide_cases() + layout_cases() + set_cases():
             if only is None or only == name:
                 _check_graph(ctx, drv, name, make, base)
         for name, make in class_cases():
